@@ -211,7 +211,9 @@ def case_from_json_common(j, kinds):
     vals = []
     for k, a in zip(spec, meta["args"]):
         vals.append(dec_poly(elt, a) if k == 'p' else (dec(elt, a) if k == 's' else int(a)))
-    return mk_case(elt, kind, vals, "corpus")
+    c = mk_case(elt, kind, vals, "corpus")
+    if meta.get("approx"): c.meta["approx"] = True
+    return c
 
 # ------------------------------------------------------------------ value menus
 def small_int(rng, lo=-6, hi=6, pzero=(1, 6)):
